@@ -408,7 +408,7 @@ func executeUniverse(env *Env, sc *Scenario, mroot string) ([]Violation, error) 
 				_ = os.RemoveAll(filepath.Dir(other))
 			}
 		}
-		resp, err := w.Do(&proto.RunReq{Root: mroot, Args: run.Args, Sched: run.Sched, Universe: true, UniAll: sc.ExternalRoot != "" || sc.UniAll, UniMethodsFirst: strings.Contains(v.Name, "methods-first"), DriverFailsOnce: strings.Contains(v.Name, "driver-fails-once"), NoEvents: true}, 4*env.Timeout)
+		resp, err := w.Do(&proto.RunReq{Root: mroot, Args: run.Args, Sched: run.Sched, Universe: true, UniAll: sc.ExternalRoot != "" || sc.UniAll, UniMethodsFirst: strings.Contains(v.Name, "methods-first"), DriverFailsOnce: strings.Contains(v.Name, "driver-fails-once"), UniLocateFirst: strings.Contains(v.Name, "locate-first"), NoEvents: true}, 4*env.Timeout)
 		x.Close()
 		if err != nil {
 			return nil, infra("universe: %v", err)
